@@ -59,16 +59,24 @@ func init() {
 		}()
 		texts := strings.Split(in["texts"], "\x00")
 		srv.SetWriteDeadline(time.Now().Add(3 * time.Second))
-		srv.Write([]byte(":srv 001 bot :Welcome\r\n"))
+		welcome, sender := "bot", "nick"
+		if in["renamed"] == "1" {
+			// the server names the client bot_; whoever holds "bot" is somebody else and may address commands like anyone
+			welcome, sender = "bot_", "bot"
+		}
+		srv.Write([]byte(":srv 001 " + welcome + " :Welcome\r\n"))
+		for i := 0; i < 2000 && cl.GetNick() != welcome; i++ {
+			time.Sleep(time.Millisecond)
+		}
 		for _, t := range texts {
 			srv.SetWriteDeadline(time.Now().Add(3 * time.Second))
-			srv.Write([]byte(":nick!u@h PRIVMSG #c :" + t + "\r\n"))
+			srv.Write([]byte(":" + sender + "!u@h PRIVMSG #c :" + t + "\r\n"))
 		}
 		srv.SetWriteDeadline(time.Now().Add(3 * time.Second))
 		srv.Write([]byte("PING :sync\r\n"))
 		select {
 		case <-pong:
-		case <-time.After(4 * time.Second):
+		case <-time.After(20 * time.Second):
 		}
 		time.Sleep(60 * time.Millisecond) // the command functions run asynchronously
 		cl.Close()
@@ -114,5 +122,6 @@ func init() {
 func runC18Conn(c *Ctx) {
 	c.run("cmdwire", map[string]string{"texts": strings.Join([]string{"!echo a ", "!echo", "!echo  x", "!pair x ", "!pair x", "!echo a b  ", "hello", "!nosuch a"}, "\x00")})
 	c.run("cmdwire", map[string]string{"hold": "1", "texts": strings.Join([]string{"!echo one two", "!echo three", "!echo four five six", "!echo"}, "\x00")})
-	c.R.Traces += 2
+	c.run("cmdwire", map[string]string{"renamed": "1", "texts": strings.Join([]string{"!echo a  b", "!pair x y", "!echo"}, "\x00")})
+	c.R.Traces += 3
 }
